@@ -6,7 +6,7 @@ from ..backends import list_backends
 from ..backends.make import writer as make
 from ..backends.ninja import writer as ninja
 from ..build_inputs import build_input
-from ..iterutils import listify
+from ..iterutils import listify, uniques
 from ..path import Path
 
 
@@ -18,7 +18,10 @@ def _inputs(build_inputs, env):
 
 
 def _source_inputs(build_inputs, env):
-    return build_inputs.bootstrap_paths + listify(env.toolchain.path)
+    # A bfg file can be read more than once (e.g. the same submodule loaded
+    # twice), but it can only have one rule.
+    return uniques(build_inputs.bootstrap_paths +
+                   listify(env.toolchain.path))
 
 
 def _outputs(build_inputs, env):
